@@ -106,7 +106,7 @@ def build_harness(profile="release"):
     return b
 
 
-def run_driver(args, out, profile="release", timeout=1800, env=None, stdin=None):
+def run_driver(args, out, profile="release", timeout=1800, env=None, stdin=None, allow_death=False):
     """Runs `ymqv <args> --out <out>`; the driver itself never fails because of the code under test
     (panics and hangs are events), so a non-zero status is a tool error."""
     b = build_harness(profile)
@@ -121,6 +121,10 @@ def run_driver(args, out, profile="release", timeout=1800, env=None, stdin=None)
     except subprocess.TimeoutExpired:
         raise ToolError("driver timeout: %s" % " ".join(map(str, args)))
     if p.returncode != 0:
+        if allow_death and (p.returncode < 0 or p.returncode in (101, 134, 137, 139)):
+            # killed by a signal / aborted: the caller turns the call that was in progress into an event
+            log("[driver] %s died with status %d" % (" ".join(map(str, args)), p.returncode))
+            return p.returncode
         log(p.stdout[-3000:])
         log(p.stderr[-3000:])
         raise ToolError("driver failed (%d): %s" % (p.returncode, " ".join(map(str, args))))
